@@ -217,3 +217,176 @@ Proof.
   induction i as [|i IH]; destruct j as [|j]; simpl; intros H; auto; try discriminate.
   inversion H. f_equal; auto.
 Qed.
+
+(** * Repaired detectConflicts: the number of visits is at most the size of the query
+    Every selection set is visited at most once: the inline ones once per visit of their enclosing set,
+    the fragment bodies once because of the [seen] set. *)
+
+Fixpoint isz_item (it : titem) : nat :=
+  match it with
+  | TInline _ _ l => S (fold_right (fun x n => isz_item x + n) 0 l)
+  | _ => 0
+  end.
+Definition isz (l : list titem) : nat := fold_right (fun x n => isz_item x + n) 0 l.
+
+Definition wt (tbl : ftable) (n : string) : nat :=
+  match lookup n tbl with Some (_, body) => S (isz body) | None => 0 end.
+Definition Wt (tbl : ftable) (l : list string) : nat := fold_right (fun n a => wt tbl n + a) 0 l.
+
+Lemma Wt_app tbl a b : Wt tbl (a ++ b) = Wt tbl a + Wt tbl b.
+Proof. induction a as [|x t IH]; simpl; auto. rewrite IH. lia. Qed.
+
+(** [crel tbl m st st']: st' extends the seen set of st by fresh, known names and the visits made in
+    between are [m] plus the weight of the new names. *)
+Definition crel (tbl : ftable) (m : nat) (st st' : cstate) : Prop :=
+  exists ext, c_seen st' = ext ++ c_seen st /\ c_cost st' = c_cost st + m + Wt tbl ext /\
+              (NoDup (c_seen st) -> NoDup (c_seen st')) /\ incl ext (map fst tbl).
+
+Lemma crel_refl tbl st : crel tbl 0 st st.
+Proof. exists []. simpl. repeat split; auto; [lia | apply incl_nil_l]. Qed.
+
+Lemma crel_trans tbl m1 m2 a b c : crel tbl m1 a b -> crel tbl m2 b c -> crel tbl (m1 + m2) a c.
+Proof.
+  intros [e1 [S1 [C1 [N1 I1]]]] [e2 [S2 [C2 [N2 I2]]]]. exists (e2 ++ e1).
+  repeat split.
+  - rewrite S2, S1, app_assoc. reflexivity.
+  - rewrite C2, C1, Wt_app. lia.
+  - auto.
+  - apply incl_app; auto.
+Qed.
+
+Lemma fold_res_crel tbl (f : cstate -> titem -> res cstate) (g : titem -> nat) l :
+  (forall x st st', In x l -> f st x = ROk st' -> crel tbl (g x) st st') ->
+  forall st st', fold_res f st l = ROk st' -> crel tbl (fold_right (fun x n => g x + n) 0 l) st st'.
+Proof.
+  induction l as [|x t IH]; intros Hf st st' H; simpl in *.
+  - inversion H; subst. apply crel_refl.
+  - destruct (f st x) as [st1| |] eqn:E; try discriminate.
+    eapply crel_trans; [eapply Hf; eauto | eapply IH; eauto].
+Qed.
+
+Lemma two_pass_crel tbl (item : bool -> cstate -> titem -> res cstate) l :
+  (forall x st st', In x l -> item true st x = ROk st' -> crel tbl 0 st st') ->
+  (forall x st st', In x l -> item false st x = ROk st' -> crel tbl (isz_item x) st st') ->
+  forall st st', two_pass item st l = ROk st' -> crel tbl (isz l) st st'.
+Proof.
+  intros H1 H2 st st' H. unfold two_pass in H.
+  destruct (fold_res (item true) st l) as [st1| |] eqn:E; try discriminate.
+  pose proof (fold_res_crel tbl (item true) (fun _ => 0) l H1 st st1 E) as R1.
+  pose proof (fold_res_crel tbl (item false) isz_item l H2 st1 st' H) as R2.
+  assert (Z : fold_right (fun (_ : titem) n => 0 + n) 0 l = 0) by (clear; induction l; simpl; auto).
+  cbv beta in R1. rewrite Z in R1. apply (crel_trans tbl 0 _ st st1 st' R1 R2).
+Qed.
+
+Lemma crel_bump tbl m st st' : crel tbl m (c_bump st) st' -> crel tbl (S m) st st'.
+Proof.
+  intros [e [S1 [C1 [N1 I1]]]]. exists e. simpl in *. repeat split; auto. lia.
+Qed.
+
+Lemma cf_item_crel fuel : forall tbl it b st st',
+  cf_item repaired fuel tbl b st it = ROk st' -> crel tbl (if b then 0 else isz_item it) st st'.
+Proof.
+  induction fuel as [|f IHf]; intros tbl; [intros it b st st' H; discriminate|].
+  induction it using titem_ind'; intros b st st'; [rewrite cf_field | rewrite cf_field | rewrite cf_spread | rewrite cf_inline].
+  - destruct b; simpl; [|intros H0; inversion H0; subst; apply crel_refl].
+    destruct (lookup a (c_sels st)) as [[n' a']|].
+    + destruct (negb (String.eqb n' n)); [discriminate|]. destruct (negb (args_equal a' args)); [discriminate|].
+      intros H0; inversion H0; subst; apply crel_refl.
+    + intros H0; inversion H0; subst. exists []. simpl. repeat split; auto; [lia | apply incl_nil_l].
+  - destruct b; simpl; [|intros H0; inversion H0; subst; apply crel_refl].
+    destruct (lookup a (c_sels st)) as [[n' a']|].
+    + destruct (negb (String.eqb n' n)); [discriminate|]. destruct (negb (args_equal a' args)); [discriminate|].
+      intros H0; inversion H0; subst; apply crel_refl.
+    + intros H0; inversion H0; subst. exists []. simpl. repeat split; auto; [lia | apply incl_nil_l].
+  - destruct b; [intros H0; inversion H0; subst; apply crel_refl|].
+    cbn [fix21 repaired andb]. destruct (mem n (c_seen st)) eqn:Em; [intros H0; inversion H0; subst; apply crel_refl|].
+    destruct (lookup n tbl) as [[on body]|] eqn:El; [|discriminate].
+    intros H0.
+    set (st1 := {| c_sels := c_sels st; c_seen := n :: c_seen st; c_cost := c_cost st |}) in *.
+    assert (R : crel tbl (S (isz body)) st1 st').
+    { apply crel_bump. apply (two_pass_crel tbl (cf_item repaired f tbl) body); auto.
+      - intros x s s' _ Hx. apply (IHf tbl x true s s' Hx).
+      - intros x s s' _ Hx. apply (IHf tbl x false s s' Hx). }
+    destruct R as [e [S1 [C1 [N1 I1]]]]. exists (e ++ [n]). simpl in *. repeat split.
+    + rewrite S1, <- app_assoc. reflexivity.
+    + rewrite C1, Wt_app. simpl. unfold wt. rewrite El. lia.
+    + intros Hnd. apply N1. constructor; auto. intros Hc. apply mem_In in Hc. rewrite Hc in Em; discriminate.
+    + apply incl_app; auto. intros x [Hx|[]]; subst. apply lookup_In in El.
+      apply in_map_iff. exists (x, (on, body)); auto.
+  - destruct b; [intros H0; inversion H0; subst; apply crel_refl|].
+    intros H0. simpl. apply crel_bump.
+    apply (two_pass_crel tbl (cf_item repaired (S f) tbl) l); auto.
+    + intros x s s' Hin Hx. rewrite Forall_forall in H. apply (H x Hin true s s' Hx).
+    + intros x s s' Hin Hx. rewrite Forall_forall in H. apply (H x Hin false s s' Hx).
+Qed.
+
+Lemma isz_le_size l : isz l <= items_size l.
+Proof.
+  assert (Hi : forall it, isz_item it <= titem_size it).
+  { induction it using titem_ind'; simpl; try lia.
+    apply le_n_S. induction H as [|x t Hx Ht IH]; simpl; lia. }
+  induction l as [|x t IH]; simpl; auto. specialize (Hi x). unfold isz, items_size in *. simpl. lia.
+Qed.
+
+Lemma Wt_ext t1 t2 l : (forall n, In n l -> wt t1 n = wt t2 n) -> Wt t1 l = Wt t2 l.
+Proof.
+  induction l as [|x t IH]; simpl; intros H; [reflexivity|].
+  rewrite (H x (or_introl eq_refl)). rewrite IH; [reflexivity|]. intros n Hn; apply H; right; exact Hn.
+Qed.
+
+Lemma Wt_bound tbl : forall l, NoDup l -> incl l (map fst tbl) -> Wt tbl l <= ftable_size tbl.
+Proof.
+  induction tbl as [|[k [on body]] t IH]; intros l Hnd Hi.
+  - destruct l as [|x l']; simpl; auto. exfalso. apply (Hi x). left; auto.
+  - assert (Hw : forall n, n <> k -> wt ((k, (on, body)) :: t) n = wt t n).
+    { intros n Hn. unfold wt. simpl. destruct (String.eqb n k) eqn:E; auto. apply String.eqb_eq in E. congruence. }
+    destruct (in_dec string_dec k l) as [Hin|Hnin].
+    + destruct (in_split _ _ Hin) as [l1 [l2 Hl]]. subst l.
+      apply NoDup_remove in Hnd. destruct Hnd as [Hnd Hk].
+      assert (Hi' : incl (l1 ++ l2) (map fst t)).
+      { intros x Hx. assert (Hx' : In x (l1 ++ k :: l2)) by (apply in_app_or in Hx; apply in_or_app; simpl; tauto).
+        destruct (Hi x Hx') as [Hxk|Hxt]; auto. simpl in Hxk. subst. contradiction. }
+      rewrite Wt_app. simpl. rewrite (Wt_ext _ t l1), (Wt_ext _ t l2).
+      * specialize (IH (l1 ++ l2) Hnd Hi'). rewrite Wt_app in IH.
+        unfold wt at 1. simpl. rewrite String.eqb_refl. pose proof (isz_le_size body). lia.
+      * intros n Hn. apply Hw. intros Hc; subst. apply Hk. apply in_or_app; auto.
+      * intros n Hn. apply Hw. intros Hc; subst. apply Hk. apply in_or_app; auto.
+    + rewrite (Wt_ext _ t l).
+      * assert (Hi' : incl l (map fst t)).
+        { intros x Hx. destruct (Hi x Hx) as [Hxk|Hxt]; auto. simpl in Hxk. subst. contradiction. }
+        specialize (IH l Hnd Hi'). simpl. lia.
+      * intros n Hn. apply Hw. intros Hc; subst. contradiction.
+Qed.
+
+Lemma conflicts_repaired_linear tbl items c :
+  detect_conflicts repaired tbl items = ROk c -> c <= 1 + items_size items + ftable_size tbl.
+Proof.
+  unfold detect_conflicts, conflicts_run.
+  destruct (two_pass (cf_item repaired (S (List.length tbl)) tbl) (c_bump {| c_sels := []; c_seen := []; c_cost := 0 |}) items)
+    as [st| |] eqn:E; try discriminate.
+  intros H; inversion H; subst; clear H.
+  assert (R : crel tbl (isz items) (c_bump {| c_sels := []; c_seen := []; c_cost := 0 |}) st).
+  { apply (two_pass_crel tbl (cf_item repaired (S (List.length tbl)) tbl) items); auto.
+    - intros x s s' _ Hx. apply (cf_item_crel _ tbl x true s s' Hx).
+    - intros x s s' _ Hx. apply (cf_item_crel _ tbl x false s s' Hx). }
+  destruct R as [e [S1 [C1 [N1 I1]]]]. simpl in *. rewrite app_nil_r in S1.
+  assert (Hnd : NoDup e) by (rewrite <- S1; apply N1; constructor).
+  pose proof (Wt_bound tbl e Hnd I1). pose proof (isz_le_size items). lia.
+Qed.
+
+Lemma convert_repaired_linear doc vars q c :
+  convert repaired doc vars = ROk (q, c) -> c <= 1 + query_size q.
+Proof.
+  unfold convert.
+  destruct (scan_defs {| a_frags := []; a_op := None |} doc) as [acc| |]; try discriminate.
+  destruct (a_op acc) as [o0|]; try discriminate.
+  destruct (op_parts o0) as [[[op name] vds] sel] eqn:Eo.
+  destruct (apply_defaults vars vars vds) as [vars'| |]; try discriminate.
+  unfold convert_tail. rewrite Eo.
+  destruct (collect_frags _) as [tbl| |]; try discriminate.
+  destruct (parse_selset _ _ _ sel) as [items| |]; try discriminate.
+  destruct (detect_cycles tbl items); try discriminate.
+  destruct (detect_conflicts repaired tbl items) as [cost| |] eqn:Ec; try discriminate.
+  intros H; inversion H; subst; clear H. unfold query_size; simpl.
+  apply conflicts_repaired_linear in Ec. lia.
+Qed.
